@@ -33,6 +33,8 @@ def run(chk):
             cfg["downenc"] = "-"
         fault = {"drop": rng.choice([0.0, 0.1, 0.3]), "dup": rng.choice([0.0, 0.2, 0.4, 0.7]), "delay": rng.choice([0, 50, 800, 3000]), "ms": rng.choice([8000, 20000, 40000])}
         jobs.append((chk.seed * 1000 + 500 + k, cfg, relay, fault, 10 if thorough else 8, False, "integrity"))
+    # one directed world: the sequence-number wrap over an abandoned partial packet with crafted contents (recorded finding c01:seqno-wrap-chimera)
+    jobs.append((chk.seed * 1000 + 900, W.random_config(rng, {"raw_mode": 0, "lazy": 0, "qtype": 10, "downenc": "-", "maxlen": 255, "autofrag": 1}), {}, None, 0, True, "chimera"))
     res = W.run_worlds(jobs)
     bad, frames, delivered, hs_ok = 0, 0, 0, 0
     for r in res:
@@ -46,8 +48,10 @@ def run(chk):
             continue
         v = W.integrity_violations(r)
         if v:
-            chk.violation("C01 fails on the implementation: %s (configuration %s, negotiated %s, relay %s, faults %s)" % (v[0], r["cfg"], r["negotiated"], r["relay"], r["fault"]),
-                          r["log"], key="c01:fabricated")
+            chimera = r["scenario"] == "chimera" and r.get("blackout_ms", 0) < 60000
+            chk.violation("C01 fails on the implementation: %s (configuration %s, negotiated %s, relay %s, faults %s%s)" % (v[0], r["cfg"], r["negotiated"], r["relay"], r["fault"],
+                          "; scenario: upstream blackout of %d ms right after fragment 0 of a packet, 7 more packets given up, crafted next packet: %s" % (r.get("blackout_ms", 0), r.get("chimera")) if r["scenario"] == "chimera" else ""),
+                          r["log"], key="c01:seqno-wrap-chimera" if chimera else "c01:fabricated")
             bad += 1
     chk.cov["evaluations"] = sum(len(r["log"]) for r in res)
     chk.cov["distinct_nontrivial"] = delivered
